@@ -76,6 +76,14 @@ func overlayCheck(s *pbt.Session, id, sub, test string, n int) {
 		return
 	}
 	r, err := runOverlay(s, test, n)
+	if err != nil && (strings.Contains(err.Error(), "[build failed]") || strings.Contains(err.Error(), "undefined:")) {
+		// the in-package test names unexported identifiers of cmd/age; a tree
+		// that renamed them cannot be looked into this way. That is not a
+		// violation and the rest of the property's checks still stand.
+		s.St.Label("overlay-unavailable:" + sub)
+		fmt.Printf("NOTE property=%s %s: in-package check skipped, cmd/age internals differ: %s\n", s.ID, sub, trunc([]byte(err.Error())))
+		return
+	}
 	if err != nil {
 		s.Inconclusive(sub + ": " + err.Error())
 		fmt.Printf("INCONCLUSIVE property=%s %s: %v\n", s.ID, sub, err)
